@@ -329,12 +329,49 @@ def run_scenario(sc, res, rng, base, env):
             locks = [f for r_, d_, fs in os.walk(work) for f in fs if f.endswith(".lock")]
             if locks:
                 res.count("crash_states_with_stale_lock_files")
-            follow_up(backend, work, op, bodies, st, res, tag, prior, where, variant, sc, k)
+            if (k + len(variant)) % 2 == 0:
+                follow_up(backend, work, op, bodies, st, res, tag, prior, where, variant, sc, k)
+            else:
+                retry_same(backend, work, op, bodies, new_state, res, tag, prior, where, variant, sc, k)
     res.count("straddled:" + tag, 1 if (seen_old and seen_new) else 0)
     res.count("scenario_seen_old:" + tag, 1 if seen_old else 0)
     res.count("scenario_seen_new:" + tag, 1 if seen_new else 0)
     if len(res.samples) < 3:
         res.sample({"scenario": sc, "mutations": [[e[0], os.path.relpath(e[1], os.path.realpath(work)) if os.path.isabs(e[1]) else e[1]] for e in rec["events"]][:40]})
+
+
+def retry_same(backend, work, op, bodies, new_state, res, tag, prior, where, variant, sc, k, cleaned=False):
+    """the client repeats the interrupted operation itself: once acknowledged, the state must be the one the
+    completed operation gives (also for a store object opened afterwards)"""
+    wit = {"scenario": sc, "k": k, "variant": variant}
+    try:
+        do_op(backend, work, op, bodies)
+    except Exception as e:  # noqa
+        cls = storedrv.classify(e)
+        if (cls == "Locked" or "Locked" in type(e).__name__) and not cleaned:
+            res.count("retries_refused_by_stale_lock")
+            for r_, d_, fs in os.walk(work):
+                for f in fs:
+                    if f.endswith(".lock"):
+                        os.unlink(os.path.join(r_, f))
+            return retry_same(backend, work, op, bodies, new_state, res, tag, prior, where, variant + "+stale-locks-removed", sc, k, cleaned=True)
+        if op == "delete" and cls == "NoSuchItem":
+            pass   # already deleted by the interrupted attempt
+        else:
+            res.violation(f"{tag}/retry-of-interrupted-operation-fails/{variant}/{cls.replace('EXC:', '')}", f"{tag} prior={prior}: crash {where} [{variant}]: repeating the operation raises {e!r}", wit)
+            return
+    res.count("retries_acknowledged")
+    try:
+        st2, probs = state_of(backend, work)
+    except Exception as e:  # noqa
+        res.violation(f"{tag}/store-does-not-open-after-retry/{variant}/{type(e).__name__}", f"{tag} prior={prior}: crash {where} [{variant}], then the same operation again: the store cannot be read: {e!r}", wit)
+        return
+    for pr in probs:
+        res.violation(f"{tag}/unreadable-after-retry/{variant}", f"{tag} prior={prior}: crash {where} [{variant}], then the same operation again: {pr}", wit)
+    if st2 != new_state:
+        diff = describe_diff(new_state, new_state, st2)
+        res.violation(f"{tag}/acknowledged-retry-does-not-give-the-completed-state/{variant}/{diff[0]}", f"{tag} prior={prior}: crash {where} [{variant}]: the repeated operation was acknowledged but the store "
+                      f"does not show its result: {diff[1]}", dict(wit, expected=new_state, got=st2))
 
 
 def follow_up(backend, work, op, bodies, st_crash, res, tag, prior, where, variant, sc, k, cleaned=False):
@@ -584,7 +621,8 @@ def check(tier, seed, t0):
     c = merged["counters"]
     guards = [("scenarios", c.get("scenarios", 0), int(len(scs) * 0.9)), ("crash points audited", c.get("crash_points", 0), 2000 if tier == "quick" else 3500),
               ("crash points right after a mutation returned", c.get("crash_points:killed-right-after", 0), 500),
-              ("acknowledged operations on a crash state read back", c.get("followups_acknowledged", 0), 800),
+              ("acknowledged operations on a crash state read back", c.get("followups_acknowledged", 0), 400),
+              ("interrupted operations repeated on the crash state", c.get("retries_acknowledged", 0), 400),
               ("crash states equal to the old state", c.get("state_old", 0), 300), ("crash states equal to the new state", c.get("state_new", 0), 80)]
     for backend in ("tree", "bare", "vdir"):
         for op in ("create", "replace", "delete"):
